@@ -286,20 +286,27 @@ Proof.
   - eapply IH; [|exact H2]. apply incl_map. exact Hi.
 Qed.
 
-Theorem vol_refine lo : forall U S, fits lo U S ->
-  vol (map (fun Ud => unit_grid lo (last Ud 0)) U) S = vol U S.
+(* one slicing step: any function F of the cross-section that vanishes on the empty cross-section *)
+Lemma slice_refine lo Ud S (F : list vec -> Z) : fits1 lo Ud (map (hd 0) S) -> F [] = 0 ->
+  integ (unit_grid lo (last Ud 0)) (fun a => F (proj a S)) = integ Ud (fun a => F (proj a S)).
 Proof.
-  induction U as [|Ud U' IH]; intros S HF; [reflexivity|].
-  destruct HF as [(Hasc & Hne & Hlo & Hhd & Hgap) HF']. cbn [map vol].
-  rewrite (integ_ext _ _ (fun a => vol U' (proj a S))).
-  2:{ intros a. apply IH. eapply fits_incl; [apply proj_incl_tl| exact HF']. }
+  intros (Hasc & Hne & Hlo & Hhd & Hgap) HF0.
   apply integ_refine_lo; try assumption.
   - intros a b Hab x Hx. f_equal. apply proj_same. intros p Hp.
     assert (Hin : In (hd 0 p) (map (hd 0) S)) by (apply in_map; exact Hp).
     destruct (Hgap _ _ _ Hin Hab) as [Hle|Hge].
     + transitivity true; [apply Z.leb_le; lia| symmetry; apply Z.leb_le; lia].
     + transitivity false; [apply Z.leb_gt; lia| symmetry; apply Z.leb_gt; lia].
-  - intros x Hx. rewrite proj_empty; [apply vol_nil|]. intros p Hp.
+  - intros x Hx. rewrite proj_empty; [exact HF0|]. intros p Hp.
     assert (Hin : In (hd 0 p) (map (hd 0) S)) by (apply in_map; exact Hp). specialize (Hhd _ Hin). lia.
 Qed.
-Print Assumptions vol_refine.
+
+Theorem vol_refine lo : forall U S, fits lo U S ->
+  vol (map (fun Ud => unit_grid lo (last Ud 0)) U) S = vol U S.
+Proof.
+  induction U as [|Ud U' IH]; intros S HF; [reflexivity|].
+  destruct HF as [HF1 HF']. cbn [map vol].
+  rewrite (integ_ext _ _ (fun a => vol U' (proj a S))).
+  2:{ intros a. apply IH. eapply fits_incl; [apply proj_incl_tl| exact HF']. }
+  apply (slice_refine lo Ud S (vol U')); [exact HF1| apply vol_nil].
+Qed.
